@@ -96,7 +96,7 @@ PROPS = {
     'C11': {
         'correspondence': {'kind': 'pipein', 'profiles': [prof('pipein', (40, 5), (400, 10)), prof('progs:pipein_extra.progs', (0, 10), (0, 60)), prof('progs:pipein_slow.progs', (0, 10), (0, 100)), prof('progs:pipe_yield.progs', (0, 10), (0, 100)), prof('progs:pipein_profile_slow.progs', (0, 1), (0, 6))]},
         'coq': ['theories/PipeIn/PropsC11.vo', 'theories/PipeIn/PropsC11_examples.vo', 'theories/Inst/C11_now.vo', 'theories/Inst/Fut_now.vo'],
-        'profiles': [prof('pipein', (80, 20), (1500, 60), extra=['--max-steps', '30000']), prof('progs:pipe_yield.progs', (0, 60), (0, 1500), extra=['--max-steps', '30000']), prof('progs:pipein_slow.progs', (0, 30), (0, 600), extra=['--max-steps', '30000']), prof('progs:pipein_profile_slow.progs', (0, 3), (0, 40), extra=['--max-steps', '30000'])],
+        'profiles': [prof('pipein', (80, 20), (1500, 60), extra=['--max-steps', '30000']), prof('progs:pipe_yield.progs', (0, 60), (0, 1500), extra=['--max-steps', '30000']), prof('progs:pipein_slow.progs', (0, 30), (0, 600), extra=['--max-steps', '30000']), prof('progs:pipein_profile_slow.progs', (0, 3), (0, 40), extra=['--max-steps', '30000']), prof('progs:pipein_chain.progs', (0, 60), (0, 1500), extra=['--max-steps', '30000'])],
         'monitors': ['C11', 'C01', 'C05'], 'liveness': True, 'panics': True,
         'trusted_base': ['PipeIn model (coq/theories/PipeIn/Model.v): hand-written, the object abstracted as one-at-a-time FIFO execution (justified by C01/C02), tied by translator facts, by the replay of logged executions on the extracted model (driver/pipein, driver/pipe) and by the run-time oracles'],
         'assumptions': ['the Desync object is abstracted as ObjExec (exclusive FIFO execution); the processing of an item may suspend once in the middle (JSusp); its self-wake is assumed delivered (that is C06)'],
